@@ -97,6 +97,23 @@ def g_C02(tier):
             'samples': [{'rule': 'G-SPEC', 'fns': fns, 'speculative_sites': sites}]}
 
 
+def run_C08(rep, g):
+    # every corpus declaration is one the reference model accepts: it must expand (declarations the tree
+    # refuses are reported through the dropped-declaration channel)
+    rep.ob('R-ACCEPT', g.adt is not None and g.ctor() is not None, g, 'declaration of the documented grammar is accepted and expanded', {})
+
+
+def test_C08(rep, g):
+    rules.check_generated_tests(rep, g)
+
+
+T_PROPS = {'C08': test_C08}
+
+
+def run_C11(rep, g):
+    rules.check_canonical(rep, g)
+
+
 def run_C15(rep, g):
     rules.check_nostd_paths(rep, g)
 
@@ -143,7 +160,13 @@ def crate_C05(rep, F, gens):
 CRATE_PROPS = {'C05': crate_C05, 'C04': crate_C05, 'C12': crate_C05, 'C09': crate_C05}
 
 from . import witcat
-W_PROPS = {'C05': witcat.c05_witnesses, 'C07': witcat.c07_witnesses, 'C12': witcat.c12_witnesses, 'C15': witcat.c15_witnesses, 'C02': witcat.c02_witnesses}
+
+
+def grid_witnesses(tier='quick'):
+    from . import grid
+    return grid.build(tier)
+
+W_PROPS = {'C05': witcat.c05_witnesses, 'C07': witcat.c07_witnesses, 'C12': witcat.c12_witnesses, 'C15': witcat.c15_witnesses, 'C02': witcat.c02_witnesses, 'C08': grid_witnesses}
 
 E_PROPS = {
     'C01': run_C01,
@@ -151,6 +174,8 @@ E_PROPS = {
     'C04': run_C04,
     'C06': run_C06,
     'C10': run_C10,
+    'C11': run_C11,
+    'C08': run_C08,
     'C02': run_C02,
     'C15': run_C15,
     'C09': run_C09,
